@@ -39,11 +39,17 @@ Qed.
 
 Lemma check_unweighted_sound g : check_unweighted g = true -> unweighted g.
 Proof.
-  unfold check_unweighted. intros H. apply andb_prop in H. destruct H as [Hn He]. rewrite forallb_forall in Hn, He. split.
+  unfold check_unweighted. intros H. apply andb_prop in H. destruct H as [H Hew]. apply andb_prop in H. destruct H as [H Hnw].
+  apply andb_prop in H. destruct H as [Hn He]. rewrite forallb_forall in Hn, He, Hnw, Hew. split; [|split; [|split]].
   - intros x. unfold node_of. destruct (find_node x (g_nodes g)) as [n|] eqn:E; [|reflexivity].
     specialize (Hn n (find_node_in _ _ _ E)). destruct (n_weights n); [reflexivity|discriminate].
   - intros x e Hin. destruct (edges_from_in g x e Hin) as [es [H1 H2]]. specialize (He _ H1). cbn [snd] in He.
     rewrite forallb_forall in He. specialize (He e H2). destruct (e_weights e); [reflexivity|discriminate].
+  - intros x. unfold node_of. destruct (find_node x (g_nodes g)) as [n|] eqn:E; [|reflexivity].
+    intros Hnt. specialize (Hnw n (find_node_in _ _ _ E)). rewrite Hnt in Hnw. simpl in Hnw.
+    destruct (n_wild n); [reflexivity|discriminate].
+  - intros x e Hin. destruct (edges_from_in g x e Hin) as [es [H1 H2]]. specialize (Hew _ H1). cbn [snd] in Hew.
+    rewrite forallb_forall in Hew. specialize (Hew e H2). destruct (e_wild e); [reflexivity|discriminate].
 Qed.
 
 (* the theorem with its hypotheses discharged by evaluation *)
@@ -70,6 +76,24 @@ Qed.
 Lemma gs_of_is_spec_weights g x : gs_of g x = spec_weights g x.
 Proof. reflexivity. Qed.
 
+Theorem checked_dag_wildcards g order g' :
+  dag_check g = true -> assign_weights order g = Ok g' ->
+  forall x, In x order -> is_terminal (n_type (node_of g x)) = false ->
+  forall T, In T (n_wild (node_of g' x)) <-> reaches_wild g x T.
+Proof.
+  unfold dag_check. intros H Ha x Hx Hnt. apply andb_prop in H. destruct H as [H H3]. apply andb_prop in H. destruct H as [H1 H2].
+  apply (dag_wildcards g (rank_fn (heights g)) order g' (check_ranked_sound _ _ H1) (check_terminals_sound _ H2)
+                       (check_unweighted_sound _ H3) Ha x Hx Hnt).
+Qed.
+
+(* the executable specification lists exactly the reachable public types *)
+Lemma spec_wildcards_reaches g x T :
+  dag_check g = true -> (In T (spec_wildcards g x) <-> reaches_wild g x T).
+Proof.
+  unfold dag_check. intros H. apply andb_prop in H. destruct H as [H _]. apply andb_prop in H. destruct H as [H1 _].
+  apply (wsx_reaches g (rank_fn (heights g)) (check_ranked_sound _ _ H1) (S (rank_fn (heights g) x)) x T). lia.
+Qed.
+
 (* ---- from the model: Build = builder, then AssignWeights ---- *)
 Definition order_used (o : option (list str)) (g : wgraph) : list str :=
   match o with Some l => l | None => default_order g end.
@@ -81,6 +105,16 @@ Theorem acyclic_model_weights m g o g' :
 Proof.
   intros Hb Hc H x Hx Hnt. unfold build_weighted in H. rewrite Hb in H. cbn [obind] in H.
   rewrite <- gs_of_is_spec_weights. eapply checked_dag_weights; eauto.
+Qed.
+
+Theorem acyclic_model_wildcards m g o g' :
+  wbuild m = Ok g -> dag_check g = true -> build_weighted o m = Ok g' ->
+  forall x, In x (order_used o g) -> is_terminal (n_type (node_of g x)) = false ->
+  forall T, (In T (n_wild (node_of g' x)) <-> reaches_wild g x T) /\ (In T (n_wild (node_of g' x)) <-> In T (spec_wildcards g x)).
+Proof.
+  intros Hb Hc H x Hx Hnt T. unfold build_weighted in H. rewrite Hb in H. cbn [obind] in H.
+  assert (H1 := checked_dag_wildcards g _ g' Hc H x Hx Hnt T). split; [exact H1|].
+  rewrite H1. symmetry. apply spec_wildcards_reaches. exact Hc.
 Qed.
 
 Theorem acyclic_model_order_independent m g o1 o2 g1 g2 :
